@@ -179,11 +179,11 @@ def _work(unit):
     out = {"evaluations": 0, "violations": [], "setting": setting}
     for extra in extras:
         for bits in range(1 << (2 * nbars)):
-            cur = {"setting": list(setting), "nbars": nbars, "bits": bits, "extra": list(extra) if extra else None}
+            cur = (bits, extra)
             conflicts = run_stream(setting, nbars, bits, extra, table, table_next, lambda: cur)
             out["evaluations"] += 1
             for what, first, second in conflicts:
-                out["violations"].append(conflict_violation(what, first, second, setting))
+                out["violations"].append(conflict_violation(what, expand(first, setting, nbars), expand(second, setting, nbars), setting))
             if len(out["violations"]) > 30:
                 break
         if len(out["violations"]) > 30:
@@ -191,6 +191,13 @@ def _work(unit):
     out["table"] = table
     out["table_next"] = table_next
     return out
+
+
+def expand(c, setting, nbars):
+    if c is None or isinstance(c, dict):
+        return c
+    bits, extra = c
+    return {"setting": list(setting), "nbars": nbars, "bits": bits, "extra": list(extra) if extra else None}
 
 
 def conflict_violation(what, first, second, setting):
@@ -346,7 +353,7 @@ def run(tier, **kw):
                 if old is None:
                     tbl[k] = v
                 elif old[0] != v[0]:
-                    rep.violation(*conflict_violation(v[2], old[1], v[1], r["setting"]))
+                    rep.violation(*conflict_violation(v[2], expand(old[1], r["setting"], nbars), expand(v[1], r["setting"], nbars), r["setting"]))
     nclasses = sum(len(t) for t in merged.values())
     rep.set("prefix_classes", nclasses)
     merged.clear()
